@@ -35,6 +35,9 @@ type Engine struct {
 	New     func() Executor
 	Gen     func(r *lib.Rng, n int, do func(lib.M) any)
 	Monitor func(r *lib.Rng, n int, report func(Viol))
+	// MaxMonitor caps the monitor iterations (the check driver multiplies the budget by up to 50 when it
+	// widens the search after a broken obligation; engines on real chains must stay bounded)
+	MaxMonitor int
 }
 
 var Engines []Engine
